@@ -2,7 +2,7 @@
 # Confirm one refactoring delivered by a sub-agent: tools/refactor_confirm.sh <AREA-ID> <K>
 # the patch applies to /repo HEAD (scratch worktree) and the full suite passes with it; then copy to /verif/refactors/<ID>-<K>/
 set -u
-P=$1; K=$2; WT=${3:-/tmp/wt/$P}; SRC=/tmp/refac/$P/$K
+P=$1; K=$2; WT=${3:-/tmp/wt/$P}; SRC=${SRCROOT:-/tmp/refac}/$P/$K
 [ -f "$SRC/patch.diff" ] || { echo "no patch in $SRC"; exit 2; }
 git -C "$WT" checkout -q -- . || exit 2
 [ "$(git -C "$WT" rev-parse HEAD)" = "$(git -C /repo rev-parse HEAD)" ] || { echo "worktree not at /repo HEAD"; exit 2; }
